@@ -579,9 +579,10 @@ func c18NeighbourPairs(r *Run, fn *ssa.Function, key string) bool {
 		}
 		pairs = append(pairs, p)
 	}
-	if len(pairs) == 0 || !fromList {
+	if len(pairs) == 0 {
 		return false
 	}
+	_ = fromList // (a comparison of bounds neither of which is read from the list is reported by previous-shard)
 	defer t6Debug(r, len(r.Obls))
 	r.Pass(key+":overall/next", r.FnPos(fn), fmt.Sprintf("each shard's interval is shardInterval(Shard[i]); the previous shard's interval is read back from the list of intervals under construction (%d comparison(s) of a lower with an upper bound)", len(pairs)))
 
@@ -650,6 +651,32 @@ func c18NeighbourPairs(r *Run, fn *ssa.Function, key string) bool {
 		r.Check(key+":every-shard-kept", !skips, r.Where(keep[0]), "the next shard is reached only through the statement that keeps the current shard's interval")
 	}
 
+	// inside the conversion loop, before the shard is kept, a list that is filled by one append per turn from empty
+	// has as many elements as shards were taken before: len(list at the loop header) = i
+	lenIsCounter := func(l LinForm) LinForm { return l }
+	if fills, makes, built := sliceFills(listV); built && len(fills) == 1 && fills[0].Index == nil {
+		empty := true
+		for _, m := range makes {
+			empty = empty && isConstInt(m.Len, 0)
+		}
+		for v := range list {
+			ph, isPhi := v.(*ssa.Phi)
+			if !isPhi || ph.Block() != hS || !empty {
+				continue
+			}
+			leaf := "len(" + r.D.D(ph) + ")"
+			ctrL := r.D.Lin(idxS, nil)
+			lenIsCounter = func(l LinForm) LinForm {
+				co := l.Coef[leaf]
+				if co == 0 {
+					return l
+				}
+				n := l.add(linLeaf(leaf), -co)
+				return n.add(ctrL, co)
+			}
+		}
+	}
+
 	// ---- the pairs
 	for _, p := range pairs {
 		where := r.Where(p.site)
@@ -658,10 +685,13 @@ func c18NeighbourPairs(r *Run, fn *ssa.Function, key string) bool {
 			r.Fail(key+":previous-shard", where, fmt.Sprintf("undecided: the comparison of %s with %s — cannot tell which shards' intervals these are (an interval is that of shard i when it is shardInterval(Shard[i])'s result or element i of the list of intervals)", clipStr(lo, 80), clipStr(up, 80)))
 			continue
 		}
-		lLo, lUp := r.D.Lin(p.iLo, nil), r.D.Lin(p.iUp, nil)
+		lLo, lUp := lenIsCounter(r.D.Lin(p.iLo, nil)), lenIsCounter(r.D.Lin(p.iUp, nil))
 		diff := lUp.add(lLo, -1)
 		dc, isC := diff.isConst()
-		r.Check(key+":previous-shard", isC && dc == -1, where, fmt.Sprintf("the lower bound compared is that of shard [%s], the upper bound that of shard [%s]: contiguity wants the upper bound of the shard just before (difference −1, found %s)", lLo, lUp, diff))
+		pairOK := r.Check(key+":previous-shard", isC && dc == -1, where, fmt.Sprintf("the lower bound compared is that of shard [%s], the upper bound that of shard [%s]: contiguity wants the upper bound of the shard just before (difference −1, found %s)", lLo, lUp, diff))
+		if !pairOK {
+			continue // the tests are those of a pair of neighbours; this is not one
+		}
 		for _, e := range []EdgeSpec{
 			{Name: "extends-unbounded", Atom: nilAtom(up), Bad: "nil"},
 			{Name: "no-lower-bound", Atom: nilAtom(lo), Bad: "nil"},
